@@ -648,8 +648,8 @@ def subintervalise(x_: Interval, n: Union[int, tuple] = 0) -> Interval:
     """
     x = intervalise(x_)
     d = len(x.shape)  # dimension of the array
-    if n == 0 | n == 1:
-        return x  # should return a subtiling (sized interval)
+    if n == 0:
+        return x  # no subdivision requested; n == 1 yields the one-tile subtiling below
     if x.scalar:  # or x.scalar == True
         xx = linspace(x.lo, x.hi, num=n + 1)
         return intervalise(vstack([xx[:-1], xx[1:]]))
